@@ -118,7 +118,7 @@ def decode(o):
         if '$tuple' in o:
             return tuple(decode(x) for x in o['$tuple'])
         if '$cmp' in o:
-            if _SHARE is not None and o['$cmp'].startswith('entry'):
+            if _SHARE is not None and o['$cmp'].startswith(('entry', 'linear')):
                 cmp_obj = _SHARE.setdefault(o['$cmp'], None) or COMPARERS[o['$cmp']]()
                 _SHARE[o['$cmp']] = cmp_obj
                 return {'comparer': cmp_obj, 'comparer_params': list(o['params'])}
@@ -373,13 +373,13 @@ def run_item(kind, opts, alts, wrong, inputs, orders, seed, rec, untupled=False)
     else:
         rec.cls('orders/24-sampled')
     global _SHARE
-    shared = kind == 'M' and any(isinstance(e, dict) and str(e.get('$cmp', '')).startswith('entry')
-                                 for a in alts for e in a['e'])
+    shared = kind in ('M', 'F') and any(isinstance(e, dict) and str(e.get('$cmp', '')).startswith(('entry', 'linear'))
+                                        for a in alts for e in a['e'])
     try:
         if shared:
             _SHARE = {}
-            rec.cls('entry-comparer-object-shared')
-            for tol in (1e6, 0):
+            rec.cls('entry-comparer-object-shared' if kind == 'M' else 'linear-comparer-object-shared')
+            for tol in ((1e6, 0) if kind == 'M' else ()):
                 warm = make(kind, dict(opts, tolerance=tol), answers=answers_of(alts, orders[0], 0, untupled))
                 for inp in inputs:
                     set_seed(seed)
@@ -447,6 +447,30 @@ def judge_string(spec, rec):
     return run_item('S', {}, alts, SENTINEL if spec['wrong'] else '', ['cat'], None, 0, rec)
 
 
+
+# ----------------------------------------------------------------------------------------------------
+# exhaustive: alternatives that share ONE LinearComparer object, one of them with the expected value zero
+
+LIN_ALTS = [{'e': [{'$cmp': 'linear', 'params': ['x+1']}], 'g': 1, 'm': ''},
+            {'e': [{'$cmp': 'linear', 'params': ['0']}], 'g': 0.2, 'm': 'only at equilibrium'},
+            {'e': [{'$cmp': 'linear', 'params': ['x+10']}], 'g': 0.5, 'm': 'bb'},
+            {'e': [{'$cmp': 'linear', 'params': ['0*x']}, {'$cmp': 'linear', 'params': ['2*x+20']}], 'g': 0.7, 'm': 'c'}]
+LIN_INPUTS = ['2*x+2', '0', 'x+1', '3*x+30', 'x-x', '5*x+5', 'x+10']
+
+
+def items_linear_shared(tier):
+    for r in (2, 3, 4):
+        for subset in itertools.combinations(range(len(LIN_ALTS)), r):
+            for k in range(len(LIN_INPUTS)):
+                yield {'alts': list(subset), 'inputs': LIN_INPUTS[k:] + LIN_INPUTS[:k], 'wrong': bool(k % 2)}
+
+
+def judge_linear_shared(spec, rec):
+    alts = [LIN_ALTS[i] for i in spec['alts']]
+    opts = {'variables': ['x'], 'samples': 5, 'tolerance': 0.001, 'sample_from': {'x': [1, 3]}}
+    return run_item('F', opts, alts, SENTINEL if spec['wrong'] else '', spec['inputs'], None, 3, rec)
+
+
 # ----------------------------------------------------------------------------------------------------
 # generators: answer families per grader kind
 
@@ -471,6 +495,9 @@ F_FAMS = [
     {'forms': ['x^2+30', 'x*x+30', '30+x^2'], 'neg': ['-x^2-30', '-(x*x+30)'], 'scaled': ['100*x^2+3000']},
     {'forms': ['x*y+50', 'y*x+50', '50+x*y'], 'neg': ['-x*y-50'], 'scaled': ['100*(x*y+50)']},
     {'forms': ['x+y+70', 'y+x+70', '70+y+x'], 'neg': ['-(x+y+70)'], 'scaled': ['100*(x+y+70)']},
+    # the zero family: a LinearComparer must not award proportional / linear credit when either side is zero - and having
+    # met a zero it must still award them to the next alternative (a seeded change dropped those modes for good)
+    {'forms': ['0', 'x-x', '0*y', '0.0'], 'neg': ['-0'], 'scaled': ['100*0']},
     # numbered-variable instances (a in [1, 3]): alternatives that mention different indices - each alternative needs its
     # own instances sampled (a seeded change sampled once per submission, for the first alternative's names only)
     {'forms': ['a_{1}+90', '90+a_{1}', 'a_{1}+45*2'], 'neg': ['-a_{1}-90'], 'scaled': ['100*(a_{1}+90)']},
@@ -915,6 +942,7 @@ def judge_slist(spec, rec):
 PARTS = [
     Part('table-small', 'enum', judge_table, items=items_table, exhaustive=True),
     Part('string-small', 'enum', judge_string, items=items_string, exhaustive=True),
+    Part('linear-shared', 'enum', judge_linear_shared, items=items_linear_shared, exhaustive=True),
     Part('items', 'hyp', judge_items, strategy=lambda tier: item_specs(),
          budget={'quick': 4000, 'thorough': 60000}),
     Part('in-list', 'hyp', judge_list, strategy=lambda tier: list_specs(),
